@@ -63,6 +63,10 @@ Next == (\E k \in Kinds : Open(k)) \/ (\E b \in {"elif", "else", "except", "fina
 Spec == Init /\ [][Next]_vars
 
 \* ---- the requirement ----------------------------------------------------------------------
+\* Statements that are not control structures never add depth, whatever they own: a nested function definition
+\* (`def` / `async def` / `class` inside the function, itself a function of depth 1 when its body is flat) is a plain
+\* statement of the enclosing function.  The renderer's form "withHelper" puts one in front of the token sequence.
+NeutralStatements == {"assignment", "return", "nestedDef"}
 Depth == maxd
 Flag(L) == Depth > L
 KindsUsed == {toks[i][2] : i \in {j \in 1..Len(toks) : toks[j][1] = "open"}}
